@@ -337,6 +337,12 @@ func fill(t *rapid.T, s *sspec, v reflect.Value, w *bclWriter, btype string, fea
 			key = "zz" + key + "q"
 			*wrongKey = true
 		}
+		// a key that is not written leaves the field at its zero value (for a
+		// slice target: whatever the previous element held must be gone)
+		if f.Kind != "struct" && wrongKey == nil && gen.Chance(t, 12, "omit") {
+			feat["omitted-zero-field"]++
+			continue
+		}
 		switch f.Kind {
 		case "int":
 			var x int
@@ -554,7 +560,7 @@ func TestC05(t *testing.T) {
 			// junk that must be discarded
 			junk := reflect.MakeSlice(reflect.SliceOf(T), gen.Int(t, 0, 5, "njunk"), 6)
 			for i := 0; i < junk.Len(); i++ {
-				junk.Index(i).Set(vals[0])
+				fillJunk(junk.Index(i), i)
 			}
 			target.Elem().Set(junk)
 			feat["slice-target"]++
